@@ -8,9 +8,13 @@ use std::collections::HashMap;
 
 fn parse_pairs(s: &str, key: &str) -> Vec<Vec<u64>> {
     // extract `"key":[[a,b],[c,d,e],...]` from the hand-written replay json
-    let pat = format!("\"{}\":[", key);
+    // (tolerates white space after the colon, as other json writers produce it)
+    let pat = format!("\"{}\"", key);
     let start = match s.find(&pat) {
-        Some(i) => i + pat.len(),
+        Some(i) => match s[i + pat.len()..].find('[') {
+            Some(k) if s[i + pat.len()..i + pat.len() + k].chars().all(|c| c == ':' || c.is_whitespace()) => i + pat.len() + k + 1,
+            _ => return Vec::new(),
+        },
         None => return Vec::new(),
     };
     let mut out = Vec::new();
